@@ -3,7 +3,8 @@ import hashlib
 from core import Case
 
 PROP = 'C06'
-COQ_FILES = ['Extract/C06.v', 'Properties/C06.v']
+COQ_FILES = ['Extract/C06.v', 'Glue/WireGlue.v', 'Properties/C06.v']
+TIE_FILES = ['Properties/TieBlocks.v']
 DRIVER = 'c06'
 IMPL = 'harness/impl/c06_impl.py'
 ALLOWED_AXIOMS = []
@@ -497,8 +498,8 @@ def gen_cases(rng, tier):
         tx_case('tx_count_wit', 'plain', simple(ins=[(P, 0, b'', 0xffffffff, [b'\x51'] * n)]), cs_)
         tx_case('tx_count_wit', 'plain', simple(ins=[(P, 0, b'', 0xffffffff, [b''] * n)]), cs_)
     # ---- boundary stream: lengths
-    for n in [0, 1, 2, 22, 25, 75, 76, 252, 253, 254, 255, 256, 520, 10000] + ([65535, 65536, 70000] if big else []):
-        for fill in (plain_script(rng, n), rnd(rng, n)):
+    for n in [0, 1, 2, 22, 25, 75, 76, 252, 253, 254, 255, 256, 520, 10000, 65534, 65535, 65536] + ([70000] if big else []):
+        for fill in ((plain_script(rng, n), rnd(rng, n)) if (big or n < 60000) else (plain_script(rng, n),)):
             tag = 'plain' if fill == b'' or fill[0] in (0x51, 0x52, 0x60, 0x75, 0x76, 0x87, 0x93, 0xac, 0xb1, 0xff, 0) and \
                 all(x >= 0x4f or x == 0 for x in fill) else 'non'
             tx_case('tx_len_out', tag, simple(outs=[(1, fill)]), cs_)
